@@ -1,6 +1,6 @@
 //@unit comm
 //@include models/exchange.rs
-//@thread maybe_poll do_read posix::poll libc_poll .read .write .read_into Instant::now:ro
+//@thread maybe_poll do_read posix::poll libc_poll .read .write .read_into .communicate_bytes Instant::now:ro
 
 // ================================================================ the real posix::poll wrapper (its >24.8-day loop), over libc_poll
 pub mod posix_impl {
@@ -109,6 +109,8 @@ pub open spec fn dl(deadline: Option<Instant>) -> Option<nat> { match deadline {
                 &&& w.sin.intended == c.input_data@
                 &&& c.input_pos <= c.input_data@.len()
                 &&& w.sin.accepted == delivered(c.input_data@, c.input_pos as int)
+                // C02: end-of-file follows the last byte immediately: stdin is never left open once the whole (non-empty) input was delivered
+                &&& (c.input_pos < c.input_data@.len() || c.input_pos == 0)
             })
         &&& (live(w, 0) ==> c.stdin.is_some()) && (live(w, 1) ==> c.stdout.is_some()) && (live(w, 2) ==> c.stderr.is_some())
     }
@@ -251,6 +253,7 @@ broadcast use {super::posix::poll_lemmas, super::axiom_vec_len_fits, super::byte
 
 //@struct Communicator pubfields
 //@struct CommunicateError pubfields
+//@include models/stringw.rs
 
 impl Communicator {
 //@fn Communicator::new
@@ -281,6 +284,21 @@ impl Communicator {
 //@replace 1 /match self.inner.read(/ => /proof { begin_read(w, dl(deadline)); } match self.inner.read(/
 //@end
 
+//@fn Communicator::read_string world=mut
+//@rreplace 1 /Ok\(\(o\.map\(from_utf8_lossy\), e\.map\(from_utf8_lossy\)\)\)/ => /Ok((match o { Some(v_) => Some(from_utf8_lossy(v_)), None => None }, match e { Some(v_) => Some(from_utf8_lossy(v_)), None => None }))/
+        // R6: Option::map(f) = match (the function item from_utf8_lossy carries its contract)
+        requires
+            comm_wf(old(self).inner, old(w).s),
+            remaining(old(w).s.sout) + remaining(old(w).s.serr) <= usize::MAX,
+            old(self).time_limit.is_some() ==> old(self).time_limit.unwrap().ns < 0x1_0000_0000_0000_0000_0000_0000,
+        ensures
+            comm_wf(final(self).inner, final(w).s),
+            // the strings are the lossy decoding of exactly the bytes consumed from each pipe by this call; absent streams stay absent
+            r is Ok ==> r->Ok_0.0.is_some() == old(self).inner.stdout.is_some() && r->Ok_0.1.is_some() == old(self).inner.stderr.is_some(), //[C02]
+            r is Ok && r->Ok_0.0.is_some() ==> r->Ok_0.0.unwrap()@ == lossy(consumed(old(w).s.sout, final(w).s.sout)), //[C02]
+            r is Ok && r->Ok_0.1.is_some() ==> r->Ok_0.1.unwrap()@ == lossy(consumed(old(w).s.serr, final(w).s.serr)), //[C02]
+//@end
+
 //@fn Communicator::limit_size
 //@selfmut
         ensures r.size_limit == Some(size), r.time_limit == self.time_limit, r.inner == self.inner,
@@ -292,6 +310,12 @@ impl Communicator {
 //@end
 }
 
+//@fn from_utf8_lossy
+//@rreplace 2 /String::from_utf8/ => /StringM::from_utf8/
+    // the text variants equal the lossy UTF-8 decoding of the byte result, whichever branch is taken
+    ensures r@ == lossy(v@), //[C02]
+//@end
+
 //@fn communicate
         requires
             // documented panics
@@ -300,6 +324,62 @@ impl Communicator {
             r.inner.input_data@ == (match input_data { Some(v) => v@, None => Seq::<u8>::empty() }),
             r.size_limit.is_none(), r.time_limit.is_none(),
 //@end
+}
+
+// ================================================================ the Popen entry points of popen.rs that drive the same loop
+pub mod popen_api {
+use vstd::prelude::*;
+use super::*;
+use super::raw::*;
+use super::comm_api::*;
+broadcast use {super::posix::poll_lemmas, super::axiom_vec_len_fits, super::bytes_lemmas};
+//@source src/os_common.rs
+//@enum ExitStatus derive=Clone,Copy
+//@source src/popen.rs
+pub mod os {
+//@item os[unix]::ExtChildState
+}
+//@enum ChildState
+//@struct Popen pubfields
+pub mod communicate { pub use super::super::comm_api::communicate; }
+pub use super::comm_api::Communicator;
+// what the exchange looks like when it starts: the Popen's pipe ends are the three slots, nothing moved yet
+pub open spec fn fresh_exchange(p: Popen, input: Seq<u8>, w: WorldState) -> bool {
+    &&& (p.stdin.is_some() ==> p.stdin.unwrap().slot@ == 0) && (p.stdout.is_some() ==> p.stdout.unwrap().slot@ == 1) && (p.stderr.is_some() ==> p.stderr.unwrap().slot@ == 2)
+    &&& rd_ok(w.sout) && rd_ok(w.serr) && clock_ok(w)
+    &&& w.sin.intended == input && w.sin.accepted == delivered(input, 0)      // nothing delivered yet (= the empty sequence)
+    &&& (live(w, 0) ==> p.stdin.is_some()) && (live(w, 1) ==> p.stdout.is_some()) && (live(w, 2) ==> p.stderr.is_some())
+}
+impl Popen {
+//@fn Popen::communicate_start vis=pub
+    requires old(self).stdin.is_some() == input_data.is_some(),     // documented panics
+    ensures
+        final(self).stdin.is_none() && final(self).stdout.is_none() && final(self).stderr.is_none(),
+        r.inner.stdin == old(self).stdin, r.inner.stdout == old(self).stdout, r.inner.stderr == old(self).stderr, r.inner.input_pos == 0,
+        r.inner.input_data@ == (match input_data { Some(v) => v@, None => Seq::<u8>::empty() }), r.size_limit.is_none(), r.time_limit.is_none(),
+//@end
+//@fn Popen::communicate_bytes vis=pub world=mut
+//@closure 0 |i: &[u8]| -> (v: Vec<u8>)
+        ensures v@ =~= i@
+//@closure 1 |e: CommunicateError| -> (x: io::Error)
+        ensures x == e.error
+//@contract
+    requires
+        old(self).stdin.is_some() == input_data.is_some(),
+        fresh_exchange(*old(self), match input_data { Some(i) => i@, None => Seq::<u8>::empty() }, old(w).s),
+        remaining(old(w).s.sout) + remaining(old(w).s.serr) <= usize::MAX,
+    ensures
+        // without limits, Ok means: the whole input was delivered and stdin closed, every piped stream was read to end-of-file,
+        // and each result is exactly what the child wrote to that stream; a stream that was not piped is absent
+        r is Ok ==> !live(final(w).s, 0) && !live(final(w).s, 1) && !live(final(w).s, 2), //[C01,C02]
+        r is Ok && old(self).stdin.is_some() ==> final(w).s.sin.accepted == final(w).s.sin.intended, //[C02]
+        r is Ok ==> r->Ok_0.0.is_some() == old(self).stdout.is_some() && r->Ok_0.1.is_some() == old(self).stderr.is_some(), //[C02]
+        r is Ok && r->Ok_0.0.is_some() ==> r->Ok_0.0.unwrap()@ == consumed(old(w).s.sout, final(w).s.sout), //[C02]
+        r is Ok && r->Ok_0.1.is_some() ==> r->Ok_0.1.unwrap()@ == consumed(old(w).s.serr, final(w).s.serr), //[C02]
+        // no time limit was set: the call never reports a timeout
+        r is Err ==> r->Err_0.kind != io::ErrorKind::TimedOut, //[C04]
+//@end
+}
 }
 } // verus!
 fn main() {}
